@@ -337,3 +337,19 @@ def deleteArg (strict : Bool) (p : Params) (snap : List Chunk) (closed : List Na
   derefId closed (snap.getD ((choose strict p snap).n - 1) default)
 
 end Logrange.Truncate
+
+/-! ## acknowledged records that are not flushed yet
+
+`Journal.Size()` counts confirmed (flushed) bytes only. `confirmed` / `unflushed` = the partition's flushed bytes and the
+bytes of acknowledged records still waiting for their flush at the moment `deleteJournal` holds the exclusive lock;
+`synced` = `deleteJournal` calls `Sync()` before its size re-check (fix eafecef), so the re-check sees both. -/
+namespace Logrange.Truncate
+
+def deleteJournalSeen (recheck synced : Bool) (users confirmed unflushed : Nat) : Bool :=
+  users == 0 && (!recheck || confirmed + (if synced then unflushed else 0) == 0)
+
+/-- the `size == 0` branch of the visitor in a DRY run: it looks at `Size()` only (no Sync, no `deleteJournal`) and
+reports the partition as deleted -/
+def dryAnnouncesDrop (confirmed : Nat) : Bool := confirmed == 0
+
+end Logrange.Truncate
